@@ -283,6 +283,7 @@ func main() {
 	ex.Header("C15")
 	cs := ex.Parse("blockchain/chainstoreffldb.go")
 	pm := ex.Parse("p2p/message.go")
+	ex.DefNat("memoryFirstReferenceSize", constInt(ex.Parse("blockchain/utxocache.go"), "memoryFirstReferenceSize"))
 	ex.DefNat("blocksCacheSizeStore", constInt(cs, "BlocksCacheSize"))
 	ex.DefNat("blocksCacheSizeP2P", constInt(pm, "BlocksCacheSize"))
 
